@@ -427,12 +427,17 @@ def code_vs_symbolic(chk, name: str, fn: str, expr, tr: Tr, requires: list[Any],
     args = ordered_args(expr)
     unfolded = expr.doit()
     try:
-        _, src = lambdify_source(args, unfolded, cse)
+        f0, src = lambdify_source(args, unfolded, cse)
     except Exception as e:  # noqa: BLE001
         chk.struct(f"{name}.lambdify_succeeds", False, fn, witness=f"{type(e).__name__}: {e}")
         return
+    import builtins
+
     known = KNOWN_FUNCS | KNOWN_CONSTS
-    unbound = sorted(free_names(src) - known)
+    in_scope = set(getattr(f0, "__globals__", {})) | set(dir(builtins))
+    loaded = free_names(src)
+    unbound = sorted(loaded - in_scope - known)  # a NameError when the function is called
+    unmodelled = sorted((loaded - known) & in_scope)  # bound in lambdify's namespace, but outside the subset this engine denotes
 
     def rep_names(_model):
         import numpy as np
@@ -449,18 +454,7 @@ def code_vs_symbolic(chk, name: str, fn: str, expr, tr: Tr, requires: list[Any],
     chk.struct(f"{name}.names_bound", not unbound, fn, witness={"unbound_names": unbound, "cse": cse}, replay=rep_names)
     if unbound:
         return
-    n_wd = len(tr.wd)
-    try:
-        val = Interp(tr, args).run(src)
-    except UnboundName as e:
-        chk.struct(f"{name}.names_bound_in_interp", False, fn, witness=str(e), replay=rep_names)
-        return
-    if wd:
-        e1.add_wd(chk, f"{name}.code", tr, requires, fn, start=n_wd)
-    got, want = flatten(val), flatten(symbolic_value)
-    chk.struct(f"{name}.shape", len(got) == len(want), fn, witness=f"{len(got)} vs {len(want)} entries")
-    if len(got) != len(want):
-        return
+    want = flatten(symbolic_value)
     hyps = requires + tr.hyps()
 
     def rep_code(model):
@@ -496,6 +490,52 @@ def code_vs_symbolic(chk, name: str, fn: str, expr, tr: Tr, requires: list[Any],
                 "input": {k: float(v) for k, v in model.items() if not isinstance(v, bool)},
                 "observed_generated_code_output": [str(c) for c in flat_out], "expected_explicit_matrix": [str(c) for c in exp], "max_abs_err": err}
 
+    def rep_sampled(_model=None):
+        """Outside the denoted subset: the real generated function against the contract value at a few models of the precondition
+        (found by z3; successive models are pushed apart). A disagreement is a real failing input; agreement decides nothing."""
+        import z3 as _z3
+
+        from .e1 import model_to_dict
+
+        sol = _z3.Solver()
+        sol.set("timeout", 5000)
+        sol.add(*hyps)
+        last = None
+        for _ in range(4):
+            if sol.check() != _z3.sat:
+                break
+            m = sol.model()
+            md = model_to_dict(m)
+            r = rep_code(md)
+            last = r
+            if r.get("reproduced"):
+                return r
+            reals = [d for d in m.decls() if d.arity() == 0 and _z3.is_real(d())]
+            if not reals:
+                break
+            sol.add(_z3.Or(*[_z3.Or(d() > m[d] + 0.25, d() < m[d] - 0.25) for d in reals[:3]]))
+        return {"reproduced": False, "note": "generated code agrees with the contract value at the sampled models", "last": last}
+
+    if unmodelled:
+        chk.struct(f"{name}.in_supported_subset", False, fn, witness={"names_outside_the_denoted_subset": unmodelled, "cse": cse}, lemma=True, replay=replay or rep_sampled)
+        return
+    n_wd = len(tr.wd)
+    try:
+        val = Interp(tr, args).run(src)
+    except UnboundName as e:
+        chk.struct(f"{name}.names_bound_in_interp", False, fn, witness=str(e), replay=rep_names)
+        return
+    except NpvcUnsupported as e:
+        chk.struct(f"{name}.in_supported_subset", False, fn, witness=str(e), lemma=True, replay=replay or rep_sampled)
+        return
+    chk.struct(f"{name}.in_supported_subset", True, fn, lemma=True)
+    if wd:
+        e1.add_wd(chk, f"{name}.code", tr, requires, fn, start=n_wd)
+    got, want = flatten(val), flatten(symbolic_value)
+    chk.struct(f"{name}.shape", len(got) == len(want), fn, witness=f"{len(got)} vs {len(want)} entries")
+    if len(got) != len(want):
+        return
+    hyps = requires + tr.hyps()  # including the definitions recorded while the code was denoted
     for i, (g, w) in enumerate(zip(got, want)):
         chk.smt(f"{name}.code==symbolic[{i}]", hyps, g.eq(w), function=fn, replay=replay or rep_code)
 
@@ -562,12 +602,13 @@ def c08_codegen_obligations(chk, tier: str) -> None:
             sym = tr.val(Rm.as_explicit())
             code_vs_symbolic(chk, f"{cls.__name__}.numpycode[{tag}]", F + f"_{cls.__name__}Implementation._numpycode", Rm, tr, [], sym, cse)
             # composite angle arguments (a printer template that pastes '-{sin}' is only wrong when sin prints as a sum)
-            for kind, ang in (("sum", a + a2), ("neg", -a), ("double", 2 * a), ("diff", a - a2)):
+            for kind, ang in (("sum", a + a2), ("neg", -a), ("double", 2 * a), ("diff", a - a2), ("diff2", a - 2 * a2)):
+                # 'diff2' after 'diff': the two trees differ in -1 vs -2 only, and hash(-1) == hash(-2) in CPython -- anything keyed by hash alone conflates them
                 tr = Tr(f"c{cls.__name__}{int(cse)}{kind}")
                 Rm = cls(ang, nev)
                 sym = tr.val(Rm.as_explicit())
                 code_vs_symbolic(chk, f"{cls.__name__}(angle={kind}).numpycode[{tag}]", F + f"_{cls.__name__}Implementation._numpycode", Rm, tr, [], sym, cse)
-        for kind, bexpr in (("neg", -b), ("half", b / 2)):
+        for kind, bexpr in (("neg", -b), ("half", b / 2), ("neg2", -2 * b / 3)):
             tr = Tr(f"cBz{int(cse)}{kind}")
             bv = tr.val(b).re
             req = [bv > -1, bv < 1]
